@@ -27,6 +27,26 @@ CLAIMED = {
         ref="DESIGN.md §4 C02",
         note="As C01. Stated for the class-level state left by constructing a command of that class; interference by other commands is C09.",
         technique="Coq proof (codec laws instantiated on regenerated tables) + vm_compute correspondence"),
+    "C03": dict(
+        text="Machine-checked proof (Coq) over the regenerated constructor IR: for every non-ATA class and ALL arguments, data-in is a zero "
+             "buffer exactly as long as the standard's transfer (allocation length / transfer length x block size / 0), data-out is the "
+             "caller's data / an empty buffer / the composed parameter list, never None (generic theorem xfer_sound + per-class decidable "
+             "check against Spec xfer_specs). ATA PASS-THROUGH(12/16): complete sweep of 384 SAT flag combinations inside the kernel "
+             "(finite, stated as such). PARAMETER LIST LENGTH = len(data-out) is decided syntactically on the IR plus a lemma about len().",
+        ref="DESIGN.md §4 C03",
+        note="As C01. Partial: the ATA statement is a finite flag sweep with the other arguments fixed; READ CD's 3072 bytes/sector is read "
+             "as sufficiency; the real iscsi binding's use of the lengths is assumed (modelled as iscsi_dir_len).",
+        technique="Coq proof by reflection over a regenerated constructor IR + kernel sweep + vm_compute correspondence"),
+    "C17": dict(
+        text="Machine-checked proof (Coq) on the regenerated constructor IR: block size 0 is refused with MissingBlocksizeException before "
+             "anything is constructed, for all other arguments (7 classes + WRITE SAME(16) unless NDOB; ATA by flag sweep); no constructor "
+             "of any of the 42 classes returns a command for any of the 96 operation codes without a fixed CDB length. The refusals that go "
+             "through the facade and the parameter-list marshallers (PR IN service action, EXTENDED COPY keys/codes, TransportID, nothing "
+             "sent) are checked on the implementation by 240 scenario probes with a recording device on every run.",
+        ref="DESIGN.md §4 C17",
+        note="As C01. Partial: the facade/marshaller refusals are decided by exhaustive scenario probes of the implementation, not yet by a "
+             "theorem about a model (see C13/C05).",
+        technique="Coq proof by reflection over a regenerated constructor IR + implementation scenario probes"),
     "C10": dict(
         text="Machine-checked proof (Coq 8.16.1) of the codec laws for every buffer size, every contiguous mask at any "
              "alignment, every offset, every in-range value, every field order and arbitrary prior contents "
